@@ -39,7 +39,7 @@ for name in sorted(os.listdir(V + "/seeded")):
     except Exception:
         continue
     res = m.get("check_result", "")
-    missed = "missed at first, check strengthened" if "MISSED" in res else ("caught (check had just been extended)" if "would have missed" in res else "caught")
+    missed = "not caught" if "NOT CAUGHT" in res else "missed at first, check strengthened" if "MISSED" in res else ("caught (check had just been extended)" if "would have missed" in res else "caught")
     out.append("| %s | %s | %s |\n" % (name, m.get("detected_by", "").replace("|", "/"), missed))
 out.append(open(V + "/tools/asbuilt_tail.md").read())
 open(V + "/DESIGN.md", "w").write(s + "".join(out))
